@@ -2,7 +2,7 @@
 (* step st kind inputs = (st', expected observations).                                   *)
 (* Kinds flagged by is_monitor have inputs that are *observed* on the implementation and  *)
 (* a constant expected output: a mismatch there is a property violation on the real code. *)
-From VD Require Import Base.Words Model.Layout Model.Queue Extract.QueueIO Extract.QueueMon Extract.OwningIO Extract.MmioIO Model.PciBus Extract.PciBusIO Extract.PciIO Model.Blk Extract.BlkIO Model.Console Extract.ConsoleIO Extract.ConfigIO Extract.NetIO Extract.ConnMgrIO Extract.VsockIO Extract.InitIO Model.Gpu Extract.GpuIO Extract.MiscIO Model.Sound Extract.SoundIO.
+From VD Require Import Base.Words Model.Layout Model.Queue Extract.QueueIO Extract.QueueMon Extract.OwningIO Extract.MmioIO Model.PciBus Extract.PciBusIO Extract.PciIO Model.Blk Extract.BlkIO Model.Console Extract.ConsoleIO Extract.ConfigIO Extract.NetIO Extract.ConnMgrIO Extract.VsockIO Extract.InitIO Model.Gpu Extract.GpuIO Extract.MiscIO Model.Sound Extract.SoundIO Model.Input Extract.InputIO.
 (* C09: required without Import (qualified use below), so that its short names shadow nothing here *)
 From VD Require Extract.TeardownIO.
 
@@ -20,7 +20,8 @@ Inductive mstate :=
 | MTeardown (t : option TeardownIO.tio)
 | MGpu (g : option gstate)
 | MMisc (q : option qstate)
-| MPci (t : option Model.Pci.ptrans).
+| MPci (t : option Model.Pci.ptrans)
+| MInput (i : option istate).
 
 Definition bad : list N := [77777].
 
@@ -28,7 +29,7 @@ Definition bad : list N := [77777].
 Definition is_diag (k : N) : bool := (k =? 140).
 
 Definition is_monitor (k : N) : bool :=
-  (k =? 1) || (k =? 2) || (k =? 612) || (k =? 613) || ((150 <=? k) && (k <? 170)) || (k =? 1950) || (k =? 1951) || (k =? 1952) || mmio_is_monitor k || pci_is_monitor k || blk_is_monitor k || console_is_monitor k || config_is_monitor k || net_is_monitor k || connmgr_is_monitor k || vsock_is_monitor k || TeardownIO.teardown_is_monitor k || init_is_monitor k || gpu_is_monitor k || misc_is_monitor k || pcit_is_monitor k || sound_is_monitor k.
+  (k =? 1) || (k =? 2) || (k =? 612) || (k =? 613) || ((150 <=? k) && (k <? 170)) || (k =? 1950) || (k =? 1951) || (k =? 1952) || mmio_is_monitor k || pci_is_monitor k || blk_is_monitor k || console_is_monitor k || config_is_monitor k || net_is_monitor k || connmgr_is_monitor k || vsock_is_monitor k || TeardownIO.teardown_is_monitor k || init_is_monitor k || gpu_is_monitor k || misc_is_monitor k || pcit_is_monitor k || sound_is_monitor k || input_is_monitor k.
 
 Definition dir_reads (d : N) : bool := (d =? 0) || (d =? 2).
 Definition dir_writes (d : N) : bool := (d =? 1) || (d =? 2).
@@ -116,6 +117,11 @@ Definition step (st : mstate) (k : N) (ins : list N) : mstate * list N :=
     (if sound_is_monitor k then (st, sound_monitor k ins) else
      let s := match st with MSound s => s | _ => None end in
      let '(s', o) := sound_step s k ins in (MSound s', o))
+  (* ---- C19 / C07: VirtIOInput event queue (kinds 1960..1979) ---- *)
+  else if (1960 <=? k) && (k <? 1980) then
+    (if input_is_monitor k then (st, input_monitor k ins) else
+     let i := match st with MInput i => i | _ => None end in
+     let '(i', o) := input_step i k ins in (MInput i', o))
   (* 1952 MONITOR (C19, socket receive): [header.len; length of the body handed on; body = bytes after the header] *)
   else if k =? 1952 then (st, match ins with [hl; bl; same] => [b2n ((hl =? bl) && (same =? 1))] | _ => bad end)
   else if k =? 1950 then (st, [b2n (mon_owning ins)])
